@@ -193,6 +193,10 @@ func (p *PsUnpacker) FeedRtpBody(rtpBody []byte, rtpts uint32) error {
 	for p.buf.Len() != 0 {
 		rb := p.buf.Bytes()
 		i := 0
+		if len(rb) < 4 {
+			// 不足一个start code，等待后续数据
+			return nil
+		}
 		code := bele.BeUint32(rb[i:])
 		i += 4
 
@@ -249,6 +253,14 @@ func (p *PsUnpacker) FeedRtpBody(rtpBody []byte, rtpts uint32) error {
 					code, len(rtpBody), len(rb), i, hex.Dump(nazabytes.Prefix(rb[i-4:], 128)))
 			}
 			return nil
+		}
+		if i+consumed > len(rb) {
+			// 内部的长度字段超出了实际数据，数据有问题
+			nazalog.Errorf("invalid ps length field, reset all cache buffer. code=%d, consumed=%d, len=%d", code, consumed, len(rb))
+			p.buf.Reset()
+			p.audioBuf = nil
+			p.videoBuf = nil
+			return base.ErrGb28181
 		}
 		p.buf.Skip(i + consumed)
 		//nazalog.Debugf("skip. %d", i+consumed)
@@ -344,6 +356,10 @@ func (p *PsUnpacker) parsePsm(rb []byte, index int) int {
 func (p *PsUnpacker) parseAvStream(code int, rtpts uint32, rb []byte, index int) int {
 	i := index
 
+	if len(rb)-i < 2 {
+		return -1
+	}
+
 	// 注意，由于length是两字节，所以存在一个帧分成多个pes包的情况
 	length := int(bele.BeUint16(rb[i:]))
 	if length == 65535 {
@@ -357,9 +373,23 @@ func (p *PsUnpacker) parseAvStream(code int, rtpts uint32, rb []byte, index int)
 		return -1
 	}
 
+	// pes头部至少3字节，并且头部长度不能超过整个pes的长度，否则数据有问题，跳过这个pes
+	if length < 3 || 3+int(rb[i+2]) > length {
+		nazalog.Warnf("invalid pes, skip. code=%d, length=%d", code, length)
+		return 2 + length
+	}
+
 	ptsDtsFlag := rb[i+1] >> 6
 	phdl := int(rb[i+2]) // pes header data length
 	i += 3
+
+	// pts、dts字段需要在头部长度范围内
+	if ptsDtsFlag&0x2 != 0 && phdl < 5 {
+		ptsDtsFlag = 0
+	}
+	if ptsDtsFlag&0x1 != 0 && phdl < 10 {
+		ptsDtsFlag &= 0x2
+	}
 
 	var pts int64 = -1
 	var dts int64 = -1
@@ -554,6 +584,10 @@ func (p *PsUnpacker) onAvPacketWrap(packet *base.AvPacket) {
 	p.onAvPacketWrapCount++
 	//nazalog.Debugf("PsUnpacker > onAvPacketWrap. packet=%s", packet.DebugString())
 	if packet.IsVideo() {
+		if len(packet.Payload) < 5 {
+			// start code后面没有nalu数据
+			return
+		}
 		typ := h2645.ParseNaluType(packet.PayloadType == base.AvPacketPtAvc, packet.Payload[4])
 		//nazalog.Debugf("PsUnpacker onAvPacketWrap. type=%d", typ)
 		// TODO(chef): [opt] 等待sps等信息再开始回调，这个逻辑不完整简化了 202209
